@@ -114,21 +114,40 @@ theorem nc_markUnits (l : List Item) : nc (markUnits l) = nc l := by
   | case3 rest h ih => simp [ih]
   | case4 x rest h ih => simp [ih]
 
+theorem nc_of_span (rest cs tail : List Item) (x : Item) (hx : x.isComment = false)
+    (h : spanComments rest = (cs, x :: tail)) : nc rest = nc cs + nc tail := by
+  have e := spanComments_append rest
+  rw [h] at e
+  simp only at e
+  rw [← e]
+  simp [hx]
+
+theorem spanTrail_append (l : List Item) : (spanTrail l).1 ++ (spanTrail l).2 = l := by
+  induction l with
+  | nil => rfl
+  | cons x rest ih =>
+    unfold spanTrail
+    split
+    · simp [ih]
+    · simp
+
+theorem nc_of_trail (rest cs tail : List Item) (x : Item) (hx : x.isComment = false)
+    (h : spanTrail rest = (cs, x :: tail)) : nc rest = nc cs + nc tail := by
+  have e := spanTrail_append rest
+  rw [h] at e
+  simp only at e
+  rw [← e]
+  simp [hx]
+
 theorem nc_collapsePuns (l : List Item) : nc (collapsePuns l) = nc l := by
   fun_induction collapsePuns l with
   | case1 => rfl
   | case2 a rest cs tail h hf ih =>
-    have e := spanComments_append rest
-    rw [h] at e
-    simp only at e
-    rw [← e]
-    simp [ih, Item.isComment]
+    have e1 := nc_of_trail rest cs tail (.punct "=") rfl h
+    simp [ih, Item.isComment, e1]
   | case3 a rest cs tail h hf ih =>
-    have e := spanComments_append rest
-    rw [h] at e
-    simp only at e
-    rw [← e]
-    simp [ih, Item.isComment]
+    have e1 := nc_of_trail rest cs tail (.punct "=") rfl h
+    simp [ih, Item.isComment, e1]
   | case4 a rest h ih => simp [ih, Item.isComment]
   | case5 x rest h ih => simp [ih]
 
@@ -149,22 +168,9 @@ theorem nc_map_canonComment (l : List Item) : nc (l.map canonComment) = nc l := 
   | cons x rest ih => simp [ih, isComment_canonComment]
 
 /-- normalisation never drops or adds a comment -/
-theorem nc_skeleton (l : List Item) : nc (skeleton l) = nc l := by
-  induction l with
-  | nil => rfl
-  | cons x rest ih =>
-    cases x with
-    | punct t =>
-      by_cases h : t = "="
-      · simp [skeleton, h, ih, Item.isComment]
-      · simp [skeleton, h, ih, Item.isComment]
-    | keyword t => simp [skeleton, ih, Item.isComment]
-    | content t => simp [skeleton, ih, Item.isComment]
-    | comment k t => simp [skeleton, ih, Item.isComment]
-
 theorem nc_normalize (l : List Item) : nc (normalize l) = nc l := by
   unfold normalize
-  rw [nc_map_canonComment, nc_essential, nc_collapsePuns, nc_skeleton, nc_markUnits]
+  rw [nc_map_canonComment, nc_essential, nc_collapsePuns, nc_markUnits]
 
 /-- streams with different numbers of comments are never accepted -/
 theorem accounts_ne_ok_of_nc_ne (inp out : List Item) (h : nc inp ≠ nc out) :
